@@ -13,6 +13,8 @@ import (
 
 	"github.com/prometheus/client_golang/prometheus"
 	"google.golang.org/grpc"
+	"google.golang.org/grpc/codes"
+	"google.golang.org/grpc/status"
 	appsv1 "k8s.io/api/apps/v1"
 	batchv1 "k8s.io/api/batch/v1"
 	corev1 "k8s.io/api/core/v1"
@@ -129,7 +131,11 @@ func (f *fakeAlgo) GetSuggestions(ctx context.Context, in *api.GetSuggestionsReq
 	case 2:
 		k++
 	case 3:
-		err := fmt.Errorf("algorithm unavailable")
+		f.s.errSeq++
+		var err error = fmt.Errorf("algorithm unavailable")
+		if c := []codes.Code{codes.Unknown, codes.DeadlineExceeded, codes.Internal, codes.ResourceExhausted, codes.Unavailable, codes.Aborted}[f.s.errSeq%6]; c != codes.Unknown {
+			err = status.Error(c, "algorithm unavailable")
+		}
 		f.s.done(what, err)
 		return nil, err
 	}
@@ -167,7 +173,12 @@ func (f *fakeES) GetEarlyStoppingRules(ctx context.Context, in *api.GetEarlyStop
 		return nil, err
 	}
 	if f.s.esMode == 1 {
-		err := fmt.Errorf("early stopping unavailable")
+		// the failure comes as a plain error or as a gRPC status of any code: it is a failure all the same
+		f.s.errSeq++
+		var err error = fmt.Errorf("early stopping unavailable")
+		if c := []codes.Code{codes.Unknown, codes.DeadlineExceeded, codes.Internal, codes.ResourceExhausted, codes.Unavailable, codes.Aborted}[f.s.errSeq%6]; c != codes.Unknown {
+			err = status.Error(c, "early stopping unavailable")
+		}
 		f.s.done(what, err)
 		return nil, err
 	}
@@ -254,6 +265,7 @@ type sim struct {
 	tr     *trialctl.ReconcileTrial
 	algo   *fakeAlgo
 	recNS  string // namespace of the Suggestion being reconciled
+	errSeq int    // cycles through the gRPC status codes of scripted RPC failures
 	db     *fakeDB
 
 	snaps []client.Client // snaps[i] = store after op i-1 (snaps[0] = initial)
